@@ -333,8 +333,8 @@ class C33(Prop):
                   'decoder states their conventions); struct.pack/unpack little-endian layouts; numpy nditer order="F"; the call bit packing '
                   'is the model of C34. The expected numeric-ndarray row-major defect of DESIGN.md does NOT exist in this tree: the numeric '
                   'fast path is dead code (type instance compared with a set of classes).')
-    budget = {'quick': 3000, 'thorough': 40000}
-    search_budget = {'quick': 3000, 'thorough': 40000}
+    budget = {'quick': 6000, 'thorough': 40000}
+    search_budget = {'quick': 6000, 'thorough': 40000}
     rule = ('case = (type of depth <= 4, type-directed non-missing value with 15% missing inside, NaN/±inf/-0.0/denormals, boundary ints, '
             'all call shapes, loci, C- and F-ordered n-d arrays of rank 0-3 incl. empty ones, structs/tuples of 8-9 fields to cross the '
             'missing-byte boundary, arrays of 7/8/9/17 elements); lines = bytes written (hex, must be equal), value read back; '
